@@ -59,6 +59,48 @@ func c01RoundTrip(c *Ctx, in c01Input) (out string, err error, pm string) {
 			err = format.Node(&buf, rfset, af)
 			out = buf.String()
 		})
+	case "filerestorer-reuse":
+		// one explicit FileRestorer restores this file, then a second file, into the caller's
+		// FileSet; only then are both printed ("restore all, then print all")
+		pm = safely(func() {
+			dec := decorator.NewDecorator(token.NewFileSet())
+			f1, e := dec.ParseFile("a.go", in.Src, parser.ParseComments)
+			if e != nil {
+				err = e
+				return
+			}
+			f2, e := dec.ParseFile("b.go", c01Partner, parser.ParseComments)
+			if e != nil {
+				err = e
+				return
+			}
+			res := decorator.NewRestorer()
+			res.Fset = token.NewFileSet()
+			fr := res.FileRestorer()
+			fr.Name = "a.go"
+			a1, e := fr.RestoreFile(f1)
+			if e != nil {
+				err = e
+				return
+			}
+			fr.Name = "b.go"
+			a2, e := fr.RestoreFile(f2)
+			if e != nil {
+				err = e
+				return
+			}
+			var b1, b2 bytes.Buffer
+			if err = format.Node(&b1, res.Fset, a1); err != nil {
+				return
+			}
+			if err = format.Node(&b2, res.Fset, a2); err != nil {
+				return
+			}
+			out = b1.String()
+			if b2.String() != c01Partner {
+				out = "<<partner file changed>>\n" + b2.String()
+			}
+		})
 	case "parsedir":
 		dir, e := os.MkdirTemp(filepath.Join(c.Verif, ".build"), "c01-")
 		if e != nil {
@@ -151,6 +193,8 @@ func c01HasCommentAlignedWithCloser(src, out string) bool {
 	return diff
 }
 
+const c01Partner = "package a\n\nvar (\n\ta = 1\n\tb = 2\n\n\t// c\n\tc = 3\n\td = 4 // d\n)\n\nfunc g() {\n\tif a > b {\n\t\treturn\n\t}\n}\n"
+
 var c01Known = []string{
 	"package a\n\nvar (\n\ta = 1\n\n// c\n)\n",
 	"package a\n\nfunc f() {\n\tfoo(\n\t\ta,\n\t// c\n\t)\n}\n",
@@ -158,7 +202,7 @@ var c01Known = []string{
 }
 
 func c01Prop(c *Ctx) {
-	c.Res.Rule = "gofmt-canonical files: hand corpus, /repo's own sources, files sampled from $GOROOT/src (any size up to 60 kB), each through the three entry points (string helpers; explicit Decorator/Restorer on caller file sets that already hold files; ParseDir); plus the recorded finding inputs; non-trivial = distinct (file, entry)"
+	c.Res.Rule = "gofmt-canonical files: hand corpus, /repo's own sources, files sampled from $GOROOT/src (any size up to 60 kB), each through the entry points (string helpers; explicit Decorator/Restorer on caller file sets that already hold files; one FileRestorer reused for two files, printed afterwards; ParseDir); plus the recorded finding inputs; non-trivial = distinct (file, entry)"
 	var srcs []string
 	srcs = append(srcs, sinkSources...)
 	srcs = append(srcs, linkExtra...)
@@ -177,7 +221,7 @@ func c01Prop(c *Ctx) {
 			srcs = append(srcs, string(b))
 		}
 	}
-	entries := []string{"parse-print", "decorator-restorer", "parsedir"}
+	entries := []string{"parse-print", "decorator-restorer", "filerestorer-reuse", "parsedir"}
 	canonical := 0
 	for i, src := range srcs {
 		if !isCanonical(src) {
